@@ -3,7 +3,7 @@
 # Uses a plain scratch worktree (not /repo) so seeds can be tried in /repo at the same time.
 wt=/tmp/wt-ref
 [ -d $wt ] || git -C /repo worktree add -q --detach $wt HEAD
-props=$(python3 -c "import json;print(' '.join(c['property_id'] for c in json.load(open('/verif/MANIFEST.json'))['checks']))")
+props=${PROPS:-$(python3 -c "import json;print(' '.join(c['property_id'] for c in json.load(open('/verif/MANIFEST.json'))["checks"]))")}
 for d in "$@"; do
  for pd in $d/R*/patch.diff; do
   git -C $wt checkout -q -- . ; git -C $wt checkout -q --detach $(git -C /repo rev-parse HEAD)
